@@ -7,9 +7,41 @@ verification machinery in /verif — so that what the agent writes is independen
 import sys, json, os
 ROOT = os.path.dirname(os.path.dirname(os.path.abspath(__file__)))
 pid = sys.argv[1]
-first = int(sys.argv[2]) if len(sys.argv) > 2 else 6
+HARMLESS = "--harmless" in sys.argv
+args = [a for a in sys.argv[2:] if not a.startswith("--")]
+first = int(args[0]) if args else 6
 rec = [json.loads(l) for l in open(os.path.join(ROOT, "properties.jsonl")) if json.loads(l)["id"] == pid][0]
 a, b = "%s-%d" % (pid, first), "%s-%d" % (pid, first + 1)
+if HARMLESS:
+    a, b = "%s-H%d" % (pid, first), "%s-H%d" % (pid, first + 1)
+    print(f"""You are testing whether a verification setup for a semantic property of the Rust library rust-bio (a bioinformatics library: alignment, FM/suffix indexes, interval trees, pattern matching, HMMs, FASTA/FASTQ/BED/GFF parsers) raises FALSE alarms on code changes that keep the property intact. The repository is a git repository at /repo. You must NOT modify /repo itself and you must NOT read anything under /verif (it is off limits for this task). Work only in your own scratch worktree.
+
+## The property (this is all you are given)
+
+```json
+{json.dumps(rec, indent=1)}
+```
+
+## Your job
+
+Produce TWO independent changes to rust-bio's source (`src/…`), named `{a}` and `{b}`, each of which **really changes the code of a mechanism named in the property's anchors** — its structure, its internal state, its tie-breaks, the order of elements the property treats as a set, its behaviour on inputs OUTSIDE the property's quantifier, an algebraically equivalent rewrite of its arithmetic, a different but equally valid algorithm for the same step, a wider/narrower private type, a re-ordered or fused loop, an extracted helper function, renamed locals, a changed function signature of a private helper — while the **property still holds for every input, configuration and history it quantifies over**. The crate must compile and the repository's existing test suite must still pass (`cargo test --offline --no-fail-fast`). The two changes must sit in different functions/mechanisms and be of different kinds (e.g. one pure refactoring with no observable difference at all, one that changes observable behaviour the property does not constrain). Make them realistic (what a maintainer would do in a clean-up or optimisation), and substantial enough that a checker which pins the exact text, the exact internal state or the exact choice among equally valid results would notice.
+
+For each change write a demonstration: one Rust integration-test file using only the public API of `bio` (it will be copied to `tests/demo_seeded.rs`) that contains (1) *property sweeps*: deterministic tests (fixed seeds) that check the property's statement itself against an independent brute-force oracle on a few thousand generated inputs/histories — these must pass both on the unmodified tree and with your change; (2) if your change alters any observable behaviour, tests whose names start with `behaviour_differs_` that pin the OLD behaviour (they pass on the unmodified tree and FAIL with your change) — these document what changed; for a pure refactoring there are none. Argue in meta.json, clause by clause, why the property still holds.
+
+## Procedure
+
+```
+mkdir -p /var/tmp/seed3h/{pid} && cd /var/tmp/seed3h/{pid}
+git -C /repo worktree add --detach /var/tmp/seed3h/{pid}/wt HEAD
+cd wt; export CARGO_NET_OFFLINE=true CARGO_TARGET_DIR=/var/tmp/seed3h/{pid}/target
+cargo test --offline --no-fail-fast </dev/null        # baseline (no network: always --offline; one doc test of src/io/fastx.rs reads stdin — ignore it if it fails)
+```
+For each change: edit `src/…`; `cargo build --offline`; copy the demo to `tests/demo_seeded.rs`; `cargo test --offline --test demo_seeded` — the sweeps PASS, only `behaviour_differs_*` tests may fail; remove the demo and run the whole suite — must PASS; `git diff -- src > ../out/<name>/patch.diff`; `git checkout -- .`; copy the demo back and confirm EVERYTHING in it passes on the clean tree; `git apply --check` the patch on the clean tree. Second change from the clean tree again.
+
+Deliverables in `/var/tmp/seed3h/{pid}/out/{a}/` and `/var/tmp/seed3h/{pid}/out/{b}/`: `patch.diff` (src only), `demo.rs`, `meta.json` = `{{"property": "{pid}", "kind": "harmless", "summary": "<file/function, what was changed>", "why_property_still_holds": "<argument>", "observable_difference": "<what differs, or 'none (pure refactor)'>", "ran": ["<commands and outcomes>"]}}`.
+
+Clean up at the end: `git -C /repo worktree remove --force /var/tmp/seed3h/{pid}/wt; rm -rf /var/tmp/seed3h/{pid}/target` (keep `out/`). Final message: two or three sentences per change and the confirmation results. Budget: about 60–90 minutes.""")
+    sys.exit(0)
 print(f"""You are testing how well a semantic property of the Rust library rust-bio (a bioinformatics library: alignment, FM/suffix indexes, interval trees, pattern matching, HMMs, FASTA/FASTQ/BED/GFF parsers) is protected against realistic regressions. The repository is a git repository at /repo. You must NOT modify /repo itself and you must NOT read anything under /verif (it is off limits for this task). Work only in your own scratch worktree.
 
 ## The property (this is all you are given)
